@@ -292,6 +292,16 @@ func init() {
 	}
 }
 
+func init() {
+	// grpc's status.Status is an alias of internal/status.Status
+	for k, v := range externTable {
+		const pub = "(*google.golang.org/grpc/status.Status)."
+		if strings.HasPrefix(k, pub) {
+			externTable["(*google.golang.org/grpc/internal/status.Status)."+k[len(pub):]] = v
+		}
+	}
+}
+
 func callerName(fr *frame) string {
 	if fr.caller != nil {
 		return fr.caller.fn.Name()
